@@ -10,6 +10,7 @@
 -/
 import CnvVerif.Model.Tile
 import CnvVerif.Lemmas.Tile
+import CnvVerif.Lemmas.TileFields
 namespace CnvVerif.C03
 open CnvVerif
 
@@ -64,6 +65,28 @@ theorem weight_is_sum_depth_is_weighted_mean (unit : List Bin) (g : SegO) :
 
 theorem reported_segments_are_aggregated (u : List Bin) (runs : List Nat) :
     ∀ g ∈ assembleUnit u runs, aggregate u g = g := assembleUnit_aggregated u runs
+
+/-- every reported segment is one run of the segmenter's partition of the survivors: `probes` counts that run and
+    (methods none / HMM, where the model's mean is the reported one) log2 is the run's weighted mean; the stretch
+    of the end points and the aggregation of gene / weight / depth leave both alone -/
+theorem segment_log2_is_weighted_mean_of_its_survivors (u : List Bin) (runs : List Nat) :
+    ∀ g ∈ assembleUnit u runs, ∃ run ∈ splitLens (u.filter (·.keep)) runs,
+      run ≠ [] ∧ g.probes = (run.length : Int) ∧ g.log2 = wmeanLog2 run :=
+  assembleUnit_log2_probes u runs
+
+/-- … where the weighted mean is Σ wᵢ·log2ᵢ / Σ wᵢ whenever the run carries weight -/
+theorem weighted_mean_definition (run : List Bin) (hw : 0 < sumQ (run.map (·.weight))) :
+    wmeanLog2 run * sumQ (run.map (·.weight)) = sumQ (run.map (fun b => b.log2 * b.weight)) :=
+  wmeanLog2_def run hw
+
+/-- the gene field lists the distinct meaningful names of ALL input bins the segment spans, in order of first
+    appearance ("-" when none is left): each such name once, nothing else -/
+theorem gene_field_lists_distinct_meaningful_names (unit : List Bin) (g : SegO) :
+    let sel := unit.filter (fun b => b.chrom == g.chrom && decide (b.e > g.s) && decide (b.s < g.e))
+    let names := ((sel.map (·.gene)).eraseDups).filter meaningful
+    (aggregate unit g).gene = (if names.isEmpty then "-" else ",".intercalate names) ∧
+    names.Nodup ∧ ∀ n, n ∈ names ↔ (meaningful n = true ∧ ∃ b ∈ sel, b.gene = n) :=
+  ⟨aggregate_gene unit g, aggregate_names unit g⟩
 
 /-- `by_arm` only cuts a chromosome's rows, at most once, keeping their order -/
 theorem byArm_partition {α} (rows : List α) (s e : α → Int) (minGap : Int) (minArmBins : Nat) :
